@@ -69,6 +69,7 @@ func Layer(r *ev.Run) {
 		}
 		shapeSession(r, srng, 2000+s)
 	}
+	capsLayer(r, only)
 	if only >= 0 {
 		return
 	}
